@@ -282,6 +282,41 @@ theorem patch_dedup_witness :
     get? (applyAll apply (patchList (patchList (patchList [] f) g) f) []) 0 = some 10 := by
   refine ⟨by decide, by decide, by decide⟩
 
+/-! ### keys are unrestricted: signatures of the `**kwargs` entry points -/
+
+/-- can `key` be passed as a keyword argument that lands in `**kwargs` of a method whose own named
+parameters are `shadow`?  (Python: otherwise `TypeError: got multiple values for argument`.) -/
+def keyAccepted (shadow : List (List Char)) (key : List Char) : Bool := !shadow.contains key
+
+/-- `kwargs_keys_unrestricted`: every method that forwards `**kwargs` into `extra` – `bind`,
+`contextualize`, `trace` … `critical`, `exception`, `log` – accepts EVERY key that does not start with
+the mangling prefix `_Logger__`: in particular `self`, `message`, `level`, `record`, `kwargs`, `extra`…
+(the receiver and message parameters are name-mangled on purpose).  Regenerated from the signatures. -/
+theorem kwargs_keys_unrestricted :
+    ∀ m ∈ Gen.kwargsShadow, ∀ key : List Char,
+      ("_Logger__".toList).isPrefixOf key = false → keyAccepted m.2 key = true := by
+  have h : ∀ m ∈ Gen.kwargsShadow, ∀ n ∈ m.2, ("_Logger__".toList).isPrefixOf n = true := by decide
+  intro m hm key hk
+  unfold keyAccepted
+  cases hc : m.2.contains key with
+  | false => rfl
+  | true =>
+    have : key ∈ m.2 := by simpa using hc
+    rw [h m hm key this] at hk
+    cases hk
+
+/-- the entry points covered are exactly the documented ones -/
+theorem kwargs_methods_covered :
+    Gen.kwargsShadow.map (fun m => String.ofList m.1) =
+      ["bind", "contextualize", "trace", "debug", "info", "success", "warning", "error", "critical",
+       "exception", "log"] := by decide
+
+/-- refutation of the un-mangled shape: a method with an ordinary named parameter (`def bind(self,
+**kwargs)`) rejects that very name as a key – for every name -/
+theorem unmangled_parameter_refuted (name : List Char) (others : List (List Char)) :
+    keyAccepted (name :: others) name = false := by
+  simp [keyAccepted]
+
 /-- the root logger has `opt()`'s defaults, no patcher, no bound extra; and by default kwargs are
 captured -/
 theorem root_logger : (init : State K V P).loggers = [{ flags := Gen.optDefaults, patchers := [], extra := [] }] ∧
